@@ -348,9 +348,12 @@ impl TryFrom<wasmparser::HeapType> for HeapType {
             wasmparser::HeapType::Abstract { shared: true, ty } => {
                 anyhow::bail!("shared heap types are not supported: {ty:?}")
             }
-            wasmparser::HeapType::Concrete(index) => {
-                Self::Concrete(index.as_module_index().unwrap())
-            }
+            wasmparser::HeapType::Concrete(index) => match index.as_module_index() {
+                Some(index) => Self::Concrete(index),
+                // The validator canonicalizes type indices: a type of a validated
+                // component no longer refers to its module's type index space
+                None => anyhow::bail!("concrete heap types are not yet supported"),
+            },
             wasmparser::HeapType::Exact(_) => {
                 anyhow::bail!("exact heap types are not yet supported")
             }
